@@ -60,9 +60,21 @@ def flat_comp(c):
     return out
 
 
-def compare(ctx, key, what, ra, rb, replay, sample_perm=None, tol=1e-6, upto_sign=False):
+def compare(ctx, key, what, ra, rb, replay, sample_perm=None, tol=1e-6, upto_sign=False, upto_conj=False):
     sva, ca, sa = ra
     svb, cb, sb = rb
+    conj_cols = None
+    if upto_conj and len(ca) and len(cb):
+        # POP: the two members of a complex-conjugate pair have exactly the same standard deviation, so which of them comes first is not
+        # determined by the ordering rule (a tie): a mode may be compared with the conjugate of its counterpart - patterns AND coefficients together
+        fa, fb = flat_comp(ca[0]), flat_comp(cb[0])
+        if set(fa) == set(fb):
+            A = np.array([fa[k_] for k_ in sorted(fa)])
+            B = np.array([fb[k_] for k_ in sorted(fa)])
+            if A.shape == B.shape and A.ndim == 2:
+                conj_cols = np.array([(not Z.same(B[:, j], A[:, j], tol)) and Z.same(np.conj(B[:, j]), A[:, j], tol) for j in range(A.shape[1])])
+                if conj_cols.any():
+                    ctx.dist["c07:conjugate-partner-came-first"] += 1
     if sva is not None and not Z.same(np.abs(svb), np.abs(sva), tol):
         ctx.violation(key + ":singular-values", "%s: singular values change (%r vs %r)" % (what, np.asarray(svb)[:4], np.asarray(sva)[:4]), replay)
         return
@@ -73,6 +85,8 @@ def compare(ctx, key, what, ra, rb, replay, sample_perm=None, tol=1e-6, upto_sig
             return
         A = np.array([fa[k_] for k_ in sorted(fa)])
         B = np.array([fb[k_] for k_ in sorted(fa)])
+        if conj_cols is not None and B.ndim == 2 and B.shape[1] == len(conj_cols):
+            B = np.where(conj_cols[None, :], np.conj(B), B)
         if upto_sign:
             ip = np.sum(B.conj() * A, axis=0)
             sg = np.where(np.abs(ip) > 0, ip / np.where(np.abs(ip) > 0, np.abs(ip), 1), 1) if np.iscomplexobj(B) else np.where(np.real(ip) < 0, -1.0, 1.0)
@@ -84,6 +98,8 @@ def compare(ctx, key, what, ra, rb, replay, sample_perm=None, tol=1e-6, upto_sig
         sd = [d for d in x.dims if d != "mode"]
         xa = x.transpose(*sd, "mode").values
         ya = y.transpose(*sd, "mode").sel({d: x[d] for d in sd}).values if sample_perm is None else y.transpose(*sd, "mode").sel({d: x[d] for d in sd}).values
+        if conj_cols is not None and ya.shape[-1] == len(conj_cols):
+            ya = np.where(conj_cols.reshape((1,) * (ya.ndim - 1) + (-1,)), np.conj(ya), ya)
         if upto_sign:
             ip = np.sum(ya.conj() * xa, axis=tuple(range(len(sd))))
             sg = np.where(np.abs(ip) > 0, ip / np.where(np.abs(ip) > 0, np.abs(ip), 1), 1) if np.iscomplexobj(ya) else np.where(np.real(ip) < 0, -1.0, 1.0)
@@ -153,7 +169,7 @@ def run_single(ctx, rng, N):
             continue
         # complex modes are fixed up to a unit phase only (the sign rule removes a sign, not a phase);
         # SparsePCA and OPA do not apply the sign convention: compared up to sign / phase
-        upto = name in ("SparsePCA", "OPA") or sp.cplx or name == "HilbertEOF"
+        upto = name in ("SparsePCA", "OPA", "POP") or sp.cplx or name == "HilbertEOF"
         for vname, dv in variants(rng, da, sp.ordered):
             ctx.case(("c07", name, vname, da.shape, i), nontrivial=True, tag="%s/%s%s" % (name, vname, "/standardized-mixed-units" if kw else ""),
                      sample=dict(cls=name, shape=list(da.shape), variant=vname, standardize=bool(kw)))
@@ -164,7 +180,7 @@ def run_single(ctx, rng, N):
             except Exception as e:
                 ctx.violation("C07:%s:%s:error:%s" % (name, vname, C.errkind(e)), "%s fit raised %r on layout variant %s" % (name, e, vname), dict(replay, variant=vname))
                 continue
-            compare(ctx, "C07:%s:%s" % (name, vname), "%s under %s" % (name, vname), r0, r1, dict(replay, variant=vname), upto_sign=upto,
+            compare(ctx, "C07:%s:%s" % (name, vname), "%s under %s" % (name, vname), r0, r1, dict(replay, variant=vname), upto_sign=upto, upto_conj=(name == "POP"),
                     tol=1e-5 if name in ("SparsePCA",) else 1e-6)
         # other internal dimension names
         ctx.case(("c07", name, "names", da.shape, i), nontrivial=True, tag="%s/names" % name)
@@ -172,7 +188,7 @@ def run_single(ctx, rng, N):
             m2 = sp.make(k, sample_name="smp", feature_name="ftr", **kw)
             m2.fit(da, "time")
             r2 = results(m2, "single")
-            compare(ctx, "C07:%s:names" % name, "%s with sample_name='smp', feature_name='ftr'" % name, r0, r2, dict(replay, variant="names"), upto_sign=upto,
+            compare(ctx, "C07:%s:names" % name, "%s with sample_name='smp', feature_name='ftr'" % name, r0, r2, dict(replay, variant="names"), upto_sign=upto, upto_conj=(name == "POP"),
                     tol=1e-5 if name in ("SparsePCA",) else 1e-6)
         except Exception as e:
             ctx.violation("C07:%s:names:error" % name, "%s(sample_name='smp', feature_name='ftr').fit raised %r" % (name, e), dict(replay, variant="names"))
@@ -217,7 +233,7 @@ def run_two_sample_dims(ctx, rng, N):
         da = xr.DataArray(da3.values.reshape(nt, nm, p), dims=("time", "member", "x"),
                           coords={"time": np.arange(nt), "member": np.arange(nm) + 10, "x": np.arange(p) * 1.0})
         replay = dict(kind="two-sample-dims", cls=name, data=np.asarray(da.values), shape=da.shape)
-        upto = name in ("SparsePCA", "OPA") or sp.cplx or name == "HilbertEOF"
+        upto = name in ("SparsePCA", "OPA", "POP") or sp.cplx or name == "HilbertEOF"
         try:
             m0 = sp.make(2)
             m0.fit(da, ("time", "member"))
@@ -247,12 +263,12 @@ def run_two_sample_dims(ctx, rng, N):
                     r0l = r1
                     # the list fit sees the same matrix as the single array: same singular values and scores
                     compare(ctx, "C07:%s:two-sample-dims:%s" % (name, vname), "%s on %s vs the unsplit array" % (name, vname), (r0[0], [], r0[2]), (r1[0], [], r1[2]),
-                            dict(replay, variant=vname), upto_sign=upto, tol=1e-5 if name == "SparsePCA" else 1e-6)
+                            dict(replay, variant=vname), upto_sign=upto, upto_conj=(name == "POP"), tol=1e-5 if name == "SparsePCA" else 1e-6)
                     continue
                 compare(ctx, "C07:%s:two-sample-dims:%s" % (name, vname), "%s on %s vs list-same-order" % (name, vname), r0l, r1, dict(replay, variant=vname),
-                        upto_sign=upto, tol=1e-5 if name == "SparsePCA" else 1e-6)
+                        upto_sign=upto, upto_conj=(name == "POP"), tol=1e-5 if name == "SparsePCA" else 1e-6)
             else:
-                compare(ctx, "C07:%s:two-sample-dims:%s" % (name, vname), "%s under %s" % (name, vname), r0, r1, dict(replay, variant=vname), upto_sign=upto,
+                compare(ctx, "C07:%s:two-sample-dims:%s" % (name, vname), "%s under %s" % (name, vname), r0, r1, dict(replay, variant=vname), upto_sign=upto, upto_conj=(name == "POP"),
                         tol=1e-5 if name == "SparsePCA" else 1e-6)
 
 
@@ -275,7 +291,7 @@ def run_many_items(ctx, rng, N):
             m1 = sp.make(2, solver="full")
             m1.fit([da.isel(x=slice(j, j + 1)) for j in range(p)], "time")
             compare(ctx, "C07:%s:split-many-items" % name, "%s with the features cut into %d list items" % (name, p), results(m0, "single"), results(m1, "single"),
-                    replay, upto_sign=upto, tol=1e-5 if name == "SparsePCA" else 1e-6)
+                    replay, upto_sign=upto, upto_conj=(name == "POP"), tol=1e-5 if name == "SparsePCA" else 1e-6)
         except Exception as e:
             ctx.violation("C07:%s:split-many-items:error:%s" % (name, C.errkind(e)), "%s on a list of %d one-feature items raised %r" % (name, p, e), replay)
 
